@@ -3,6 +3,7 @@ package main
 // SMT-LIB term construction, sorts and naming of heap arrays.
 
 import (
+	"regexp"
 	"fmt"
 	"go/types"
 	"math/big"
@@ -307,8 +308,20 @@ func intBits(t types.Type) int {
 
 // typeKey is the canonical name of a Go type used in heap names.
 func typeKey(t types.Type) string {
-	return types.TypeString(t, func(p *types.Package) string { return shortPkg(p.Path()) })
+	s := types.TypeString(t, func(p *types.Package) string { return shortPkg(p.Path()) })
+	// byte and rune are aliases: one heap per underlying type
+	if strings.Contains(s, "uint8") || strings.Contains(s, "int32") {
+		s = aliasRe.ReplaceAllStringFunc(s, func(m string) string {
+			if m == "uint8" {
+				return "byte"
+			}
+			return "rune"
+		})
+	}
+	return s
 }
+
+var aliasRe = regexp.MustCompile(`\b(uint8|int32)\b`)
 
 // Heap names.
 func fieldHeapName(structType types.Type, field string) string {
